@@ -1176,7 +1176,8 @@ class RouterSessionManager(SessionManager):
             if use_route_table:
                 route = self.node.route_table.find_best_route(dst_ip_address)
                 if not route:
-                    raise Exception("cannot use route to resolve outbound details")
+                    # no way to reach the destination: leave the details unresolved, the caller drops the payload
+                    return None, None, dst_ip_address, src_port, dst_port, protocol, is_broadcast
 
                 dst_mac_address = self.software_manager.arp.get_arp_cache_mac_address(route.next_hop_ip_address)
                 outbound_network_interface = self.software_manager.arp.get_arp_cache_network_interface(
